@@ -4,6 +4,7 @@ import (
 	"bytes"
 	"fmt"
 	"sort"
+	"strings"
 	"testing"
 
 	"pgregory.net/rapid"
@@ -159,7 +160,7 @@ func c15Faulted(c c15Case, w *World, d *core.Dir) *core.Failure {
 func TestC15(t *testing.T) {
 	r := core.Start(t, "C15")
 	defer r.Finish()
-	r.Rule = "fault enumeration through filesystem.Filesystem wrappers that count WriteFile calls (an in-memory one with a logical clock, and for one plan in ten a wrapper in front of gopki's own NativeFs in a temp directory, where a torn write is the real WriteFile called with a prefix): hierarchies of up to 5 entities / 3 tiers; history = optional populating run, 0-2 edits (subject of an entity at any tier, extension list, profile, deleted artifact) and a faulted run with default flags, generate-all or -m -c -o; a fault-free dry run of that last run records its N writes and their contents, then for EVERY write index k < N and EVERY outcome in {error returned without writing; torn write (prefix, then process death) and torn write with error returned, cut at every PEM block boundary (before BEGIN, before END, END without newline, after the block), inside and right after the hash line, at 0 bytes and at three rapid-drawn interior offsets; complete write then death} the faulted run is replayed on a copy, followed by a default-flag run on a fresh database object. Oracle: an injected error makes the run fail; the recovery run succeeds; every entity then has certificate and key material, all chains verify as in C01, certificates equal a from-scratch run modulo keys/serials, and a further run is a no-op. Thorough also injects a second fault into the recovery run. Non-trivial = fault at a write that is not the last one of the run, or on the artifact of an entity that signs others; distinct by (history, k, outcome, cut)."
+	r.Rule = "fault enumeration through filesystem.Filesystem wrappers that count WriteFile calls (an in-memory one with a logical clock, and for one plan in ten a wrapper in front of gopki's own NativeFs in a temp directory, where a torn write is the real WriteFile called with a prefix): hierarchies of up to 5 entities / 3 tiers, a third of them with unrelated key files (<stem>.key, <stem>.key.pem) next to the configurations; history = optional populating run, 0-2 edits (subject of an entity at any tier, extension list, profile, deleted artifact) and a faulted run with default flags, generate-all or -m -c -o; a fault-free dry run of that last run records its N writes and their contents, then for EVERY write index k < N and EVERY outcome in {error returned without writing; torn write (prefix, then process death) and torn write with error returned, cut at every PEM block boundary (before BEGIN, before END, END without newline, after the block), inside and right after the hash line, at 0 bytes and at three rapid-drawn interior offsets; complete write then death} the faulted run is replayed on a copy, followed by a default-flag run on a fresh database object. Oracle: an injected error makes the run fail; the recovery run succeeds; every entity then has certificate and key material, all chains verify as in C01, certificates equal a from-scratch run modulo keys/serials, and a further run is a no-op. Thorough also injects a second fault into the recovery run. Non-trivial = fault at a write that is not the last one of the run, or on the artifact of an entity that signs others; distinct by (history, k, outcome, cut)."
 	r.Assumptions = []string{"a crash is modelled as a prefix of the intended file content at the WriteFile API (what truncate-then-write produces); storage-level reordering is out of reach", "single process death per run; database objects are never reused after a fault"}
 	wrap := func(c c15Case) *core.Failure { return checkC15(c) }
 	core.Register(r, "fault", wrap)
@@ -173,6 +174,17 @@ func TestC15(t *testing.T) {
 	gen := func(t *rapid.T) plan {
 		h := genHistory(t, 2)
 		c := c15Case{Init: h.Init}
+		if rapid.IntRange(0, 2).Draw(t, "sidecar-keys") == 0 {
+			// unrelated key files lying next to configurations (<stem>.key, <stem>.key.pem): they are not artifacts and make up
+			// for nothing that an interrupted write left out of one
+			c.Init.Files = map[string][]byte{}
+			for i := range c.Init.Ents {
+				if rapid.Bool().Draw(t, fmt.Sprintf("sidecar%d", i)) {
+					stem := strings.TrimSuffix(core.PemPath(c.Init.Ents[i].File), ".pem")
+					c.Init.Files[stem+rapid.SampledFrom([]string{".key", ".key", ".key.pem"}).Draw(t, fmt.Sprintf("sidecar-name%d", i))] = core.PemBlock("PRIVATE KEY", pkcs8Fixed("P-256", 90+i))
+				}
+			}
+		}
 		// keep only edits and default runs in the prefix; every prefix run must succeed
 		for _, op := range h.Ops {
 			if op.Kind == "run" {
